@@ -246,6 +246,24 @@ impl StateCheck for C10 {
             d2.push(&b);
             try_text(render(&other, &d2, &keep), "split", out);
             out.regime("split");
+            // ... and split by time: the first steps in one line, the remaining steps in the other (a seasonal split)
+            if data[i].vals.len() >= 2 {
+                let h = data[i].vals.len() / 2;
+                let a = DataLine { id: data[i].id, tags: data[i].tags.clone(), vals: data[i].vals.iter().enumerate().map(|(t, v)| if t < h { *v } else { 0.0 }).collect(), comment: data[i].comment.clone() };
+                let b = DataLine { id: data[i].id, tags: data[i].tags.clone(), vals: data[i].vals.iter().enumerate().map(|(t, v)| if t < h { 0.0 } else { *v }).collect(), comment: data[i].comment.clone() };
+                if a.vals.iter().any(|v| *v != 0.0) && b.vals.iter().any(|v| *v != 0.0) {
+                    let mut d2: Vec<&DataLine> = vec![];
+                    for (j, d) in refs.iter().enumerate() {
+                        if j == i {
+                            d2.push(&a);
+                        } else {
+                            d2.push(d);
+                        }
+                    }
+                    d2.push(&b);
+                    try_text(render(&other, &d2, &keep), "split_by_time", out);
+                }
+            }
             if n > 6 && i >= 2 {
                 break;
             }
@@ -429,6 +447,8 @@ pub fn aux_env_letters() -> Vec<Letter> {
     }
     // a reversible heat pump with auxiliaries: heating delivered, cooling absorbed (negative output)
     al.push(Letter::many(vec![o(7, "REF", &[-300, -500]), o(7, "CAL", &k(&[3, 1])), a(Some(7), &k(&[2, 2])), u(Some(7), "CAL", "ELECTRICIDAD", &k(&[3, 1])), u(Some(7), "REF", "ELECTRICIDAD", &k(&[1, 3]))]));
+    // heat recovery that delivers in one season what it absorbs in the other (the annual sum of the line is exactly zero)
+    al.push(Letter::many(vec![o(11, "CAL", &[200, -200]), o(11, "ACS", &k(&[1, 3])), a(Some(11), &k(&[2, 2])), u(Some(11), "CAL", "ELECTRICIDAD", &k(&[3, 1])), u(Some(11), "ACS", "ELECTRICIDAD", &k(&[1, 1]))]));
     // one EPB service and a non-EPB use on the same system, with auxiliaries and the declared output
     al.push(Letter::many(vec![a(Some(8), &k(&[1, 1])), u(Some(8), "CAL", "GASNATURAL", &k(&[3, 1])), u(Some(8), "NEPB", "ELECTRICIDAD", &k(&[1, 1])), o(8, "CAL", &k(&[2, 1]))]));
     // a system whose declared production balances its use exactly, next to systems that need completion
